@@ -96,17 +96,17 @@ theorem C18_rows_roundtrip (rs : List Row) (k : Nat) (hk : ∀ r ∈ rs, r.lengt
 
 def TableData.WF (tables : List TableDef) (t : TableData) : Prop :=
   validUtf8 t.name = true ∧ t.name.length < 2 ^ 32 ∧ t.rows.length < 2 ^ 64 ∧
-  ∃ k, findCols tables t.name = some k ∧ (∀ r ∈ t.rows, r.length = k) ∧
-    (∀ r ∈ t.rows, ∀ v ∈ r, v.WF)
+  ∃ k, findCols tables t.name = some k ∧ ¬ (k = 0 ∧ t.rows.length > 0) ∧
+    (∀ r ∈ t.rows, r.length = k) ∧ (∀ r ∈ t.rows, ∀ v ∈ r, v.WF)
 
 theorem reads_tableData (tables : List TableDef) (t : TableData) (h : TableData.WF tables t) :
     Reads (readTableData tables) (writeTableData t) t := by
-  obtain ⟨h1, h2, h3, k, hk, hlen, hwf⟩ := h
+  obtain ⟨h1, h2, h3, k, hk, hz, hlen, hwf⟩ := h
   unfold readTableData writeTableData
   simp only [List.append_assoc]
   refine Reads.bind (Reads.string h1 h2) ?_
   refine Reads.bind (Reads.uN (k := 8) (by simpa using h3)) ?_
-  simp only [hk]
+  simp only [hk, if_neg hz]
   exact Reads.map (reads_rows t.rows k hlen hwf) (fun rows => (⟨t.name, rows⟩ : TableData))
 
 /-- **T2c.** one table of the data section: name, row count, rows -/
@@ -124,10 +124,12 @@ def ColDef.WF (c : ColDef) : Prop := StrOK c.name ∧ StrOK c.typeStr
 def TableDef.WF (t : TableDef) : Prop :=
   StrOK t.name ∧ t.cols.length < 2 ^ 32 ∧ ∀ c ∈ t.cols, ColDef.WF c
 def IdxDef.WF (i : IdxDef) : Prop :=
-  StrOK i.name ∧ StrOK i.table ∧ i.cols.length < 2 ^ 32 ∧ ∀ c ∈ i.cols, StrOK c.name
+  StrOK i.name ∧ StrOK i.table ∧ i.cols.length < 2 ^ 32 ∧
+  ∀ c ∈ i.cols, StrOK c.name ∧ ∀ n, c.pfx = some n → n < 2 ^ 64
 def TrigDef.WF (t : TrigDef) : Prop :=
   StrOK t.name ∧ StrOK t.table ∧ t.timing ≤ 2 ∧ t.event ≤ 3 ∧ t.granularity ≤ 1 ∧ StrOK t.sql ∧
-  (t.event ≠ 3 → t.eventCols = []) ∧ t.eventCols.length < 2 ^ 32 ∧ ∀ c ∈ t.eventCols, StrOK c
+  (t.event ≠ 3 → t.eventCols = []) ∧ t.eventCols.length < 2 ^ 32 ∧ (∀ c ∈ t.eventCols, StrOK c) ∧
+  t.when = none
 def Catalog.WF (c : Catalog) : Prop :=
   (c.schemas.length < 2 ^ 32 ∧ ∀ s ∈ c.schemas, StrOK s) ∧
   (c.roles.length < 2 ^ 32 ∧ ∀ s ∈ c.roles, StrOK s) ∧
@@ -162,20 +164,22 @@ theorem reads_tableDef (t : TableDef) (h : TableDef.WF t) :
   exact Reads.map (Reads.many t.cols (fun c hc => reads_col c (h.2.2 c hc)))
     (fun cs => (⟨t.name, cs⟩ : TableDef))
 
-theorem reads_idxCol (c : IdxCol) (h : StrOK c.name) : Reads readIdxCol (writeIdxCol c) c := by
+theorem reads_idxCol (c : IdxCol) (h : StrOK c.name ∧ ∀ n, c.pfx = some n → n < 2 ^ 64) :
+    Reads readIdxCol (writeIdxCol c) c := by
   unfold readIdxCol writeIdxCol
-  refine Reads.bind (reads_str h) ?_
-  have hb := Reads.u8 (if c.desc then 1 else 0)
-  obtain ⟨n, d⟩ := c
-  cases d
-  · have := Reads.bind (g := fun d : UInt8 => if (d == 0) = true then (Pure.pure ⟨n, false⟩ : Reader IdxCol)
-      else if (d == 1) = true then Pure.pure ⟨n, true⟩ else fail (.badDirection d.toNat))
-      (Reads.u8 0) (w2 := []) (b := ⟨n, false⟩) (by simp; exact Reads.pure _)
-    simpa using this
-  · have := Reads.bind (g := fun d : UInt8 => if (d == 0) = true then (Pure.pure ⟨n, false⟩ : Reader IdxCol)
-      else if (d == 1) = true then Pure.pure ⟨n, true⟩ else fail (.badDirection d.toNat))
-      (Reads.u8 1) (w2 := []) (b := ⟨n, true⟩) (by simp; exact Reads.pure _)
-    simpa using this
+  simp only [List.append_assoc]
+  refine Reads.bind (reads_str h.1) ?_
+  obtain ⟨n, d, p⟩ := c
+  cases d <;> cases p with
+  | none =>
+    refine Reads.bind (w1 := [_]) (Reads.u8 _) ?_
+    simp [dirByte]
+    exact Reads.pure _
+  | some k =>
+    have hk : k < 256 ^ 8 := by have := h.2 k rfl; simpa using this
+    refine Reads.bind (w1 := [_]) (Reads.u8 _) ?_
+    simp [dirByte]
+    exact Reads.map (Reads.uN hk) _
 
 theorem reads_idxDef (i : IdxDef) (h : IdxDef.WF i) : Reads readIdxDef (writeIdxDef i) i := by
   unfold readIdxDef writeIdxDef writeCount
@@ -196,7 +200,7 @@ theorem Reads.bind_false {g : Bool → Reader β} {w : Bytes} {r : β}
   Reads.bind (w1 := [0]) (Reads.bool false) h
 
 theorem reads_trig (t : TrigDef) (h : TrigDef.WF t) : Reads readTrig (writeTrig t) t := by
-  obtain ⟨hn, ht, htim, hev, hg, hsql, hcols0, hcl, hcs⟩ := h
+  obtain ⟨hn, ht, htim, hev, hg, hsql, hcols0, hcl, hcs, hwhen⟩ := h
   have e1 : (UInt8.ofNat t.timing).toNat = t.timing := by rw [UInt8.toNat_ofNat']; omega
   have e2 : (UInt8.ofNat t.event).toNat = t.event := by rw [UInt8.toNat_ofNat']; omega
   have e3 : (UInt8.ofNat t.granularity).toNat = t.granularity := by rw [UInt8.toNat_ofNat']; omega
@@ -224,12 +228,15 @@ theorem reads_trig (t : TrigDef) (h : TrigDef.WF t) : Reads readTrig (writeTrig 
   refine Reads.bind_u8 ?_
   simp only [e3]
   rw [if_neg (by omega)]
-  refine Reads.bind_false ?_
-  simp only [Bool.false_eq_true, if_false]
+  refine Reads.bind (w1 := [0]) (Reads.optional_none readExpression) ?_
   refine Reads.bind_u8 ?_
   simp only [show (0 : UInt8).toNat = 0 from rfl, ne_eq, not_true_eq_false, if_false]
-  exact Reads.map (reads_str hsql)
-    (fun sql => (⟨t.name, t.table, t.timing, t.event, t.eventCols, t.granularity, sql⟩ : TrigDef))
+  have ht' : (⟨t.name, t.table, t.timing, t.event, t.eventCols, t.granularity, none, t.sql⟩ : TrigDef) = t := by
+    cases t; simp only at hwhen; subst hwhen; rfl
+  have := Reads.map (reads_str hsql)
+    (fun sql => (⟨t.name, t.table, t.timing, t.event, t.eventCols, t.granularity, none, sql⟩ : TrigDef))
+  rw [ht'] at this
+  exact this
 
 theorem reads_catalog (c : Catalog) (h : Catalog.WF c) : Reads readCatalog (writeCatalog c) c := by
   obtain ⟨hs, hr, ht, hi, hg⟩ := h
@@ -286,7 +293,7 @@ theorem C18_file_roundtrip (f : FileContent) (h : FileContent.WF f) :
 def exampleFile : FileContent :=
   { catalog := { schemas := [], roles := [],
                  tables := [⟨[0x54], [⟨[0x41], [0x49, 0x4E, 0x54, 0x45, 0x47, 0x45, 0x52], true⟩]⟩],
-                 indexes := [⟨[0x49], [0x54], false, [⟨[0x41], true⟩]⟩], triggers := [] },
+                 indexes := [⟨[0x49], [0x54], false, [⟨[0x41], true, some 2⟩]⟩], triggers := [] },
     data := [⟨[0x74], [[.integer (-5)], [.null]]⟩] }
 
 example : FileContent.WF exampleFile := by
@@ -300,10 +307,11 @@ example : FileContent.WF exampleFile := by
     · intro i hi
       simp [exampleFile] at hi; subst hi
       refine ⟨by decide, by decide, by decide, ?_⟩
-      intro c hc; simp at hc; subst hc; decide
+      intro c hc; simp at hc; subst hc
+      exact ⟨by decide, by intro n hn; injection hn with hn; subst hn; decide⟩
   · intro t ht
     simp [exampleFile] at ht; subst ht
-    refine ⟨by decide, by decide, by decide, 1, by decide, ?_, ?_⟩
+    refine ⟨by decide, by decide, by decide, 1, by decide, (by intro h; exact absurd h.1 (by decide)), ?_, ?_⟩
     · intro r hr; simp at hr; rcases hr with h | h <;> subst h <;> rfl
     · intro r hr v hv; simp at hr; rcases hr with h | h <;> subst h <;> simp at hv <;> subst hv <;> decide
 
